@@ -405,6 +405,7 @@ package http2
 //@ ensures decval: d < 2097152 ==> spec.intVal(r0[last:], bits) == index
 //@ ensures short: len(r0) - last <= 11
 
+//@ macro dynplace(hp) = cap(hp.dynamic) == 0 || (cap(old(hp.dynamic)) > 0 && samearray(hp.dynamic, old(hp.dynamic))) || fresh(hp.dynamic)
 //@ macro hpackOK(hp) = hp != nil && forall(i, 0, len(hp.dynamic), hp.dynamic[i] != nil)
 
 //@ func (*HPACK).peek
@@ -564,6 +565,8 @@ package http2
 //@ ensures fits: ev == len(old(hp.dynamic)) || old(tsize(hp, ev)) <= hp.maxTableSize
 //@ ensures minimal: forall(m, 0, ev, old(tsize(hp, m)) > hp.maxTableSize)
 //@ ensures nonnil: forall(k, 0, len(hp.dynamic), hp.dynamic[k] != nil)
+//@ # the table's backing array is the one it had or a new one: tables never come to share storage
+//@ ensures place: dynplace(hp)
 
 //@ func (*HPACK).addDynamic
 //@ props C03 C04
@@ -574,6 +577,8 @@ package http2
 //@ ensures suffix: ev >= 0 && ev <= len(old(hp.dynamic)) + 1 && forall(k, 0, len(hp.dynamic) - 1, hp.dynamic[k] == old(hp.dynamic)[ev + k])
 //@ ensures newest: len(hp.dynamic) > 0 ==> fresh(hp.dynamic[len(hp.dynamic) - 1])
 //@ ensures nonnil: forall(k, 0, len(hp.dynamic), hp.dynamic[k] != nil)
+//@ # the table's backing array is the one it had or a new one: tables never come to share storage
+//@ ensures place: dynplace(hp)
 
 //@ func (*HPACK).SetMaxTableSize
 //@ props C04 C18
@@ -584,6 +589,8 @@ package http2
 //@ ensures announce: (old(hp.maxTableSize) != size || old(hp.maxTableSizeSettings) != size) ==> hp.pendingSizeUpdate
 //@ ensures keepflag: old(hp.pendingSizeUpdate) ==> hp.pendingSizeUpdate
 //@ ensures nonnil: forall(k, 0, len(hp.dynamic), hp.dynamic[k] != nil)
+//@ # the table's backing array is the one it had or a new one: tables never come to share storage
+//@ ensures place: dynplace(hp)
 
 //@ macro isupd(c) = (c & 224) == 32
 //@ macro tblsep(hp, hf) = forall(i, 0, len(hp.dynamic), hfsep(hf, hp.dynamic[i])) && forall(i, 0, 61, hfsep(hf, staticTable[i]))
@@ -599,6 +606,7 @@ package http2
 //@ loop 0: invariant first: sameslice(b, old(b)) || (len(old(b)) > 0 && isupd(old(b)[0]) && blockStart && fieldsProcessed <= 0 &&
 //@ |   spec.intFits(old(b), 5) && spec.intVal(old(b), 5) <= hp.maxTableSizeSettings)
 //@ loop 0: invariant tbl0: sameslice(b, old(b)) ==> sameslice(hp.dynamic, old(hp.dynamic)) && hp.dynamic == old(hp.dynamic)
+//@ loop 0: invariant place: dynplace(hp)
 //@ let b0 = old(b)
 //@ let c = old(b)[0]
 //@ ensures empty: len(b0) == 0 ==> r1 == nil && len(r0) == 0
@@ -620,6 +628,8 @@ package http2
 //@ # (stated for literals without indexing; the incremental-indexing path goes through addDynamic, whose
 //@ # frame over pooled header fields is too coarse to carry hf across)
 //@ ensures sens: r1 == nil && len(b0) > 0 && c < 32 ==> hf.sensible == ((c & 240) == 16)
+//@ # the table's backing array is the one it had or a new one: tables never come to share storage
+//@ ensures place: dynplace(hp)
 
 //@ func bytes.Equal
 //@ trusted
@@ -673,6 +683,8 @@ package http2
 //@ # prefix widths: 7 for indexed, 6 for incremental indexing, 4 for without/never indexing
 //@ ensures widths: (local(fullMatch) && !sens ==> local(bits) == 7) && (add ==> local(bits) == 6) &&
 //@ |   (!add && !(local(fullMatch) && !sens) && local(index) > 0 ==> local(bits) == 4)
+//@ # the table's backing array is the one it had or a new one: tables never come to share storage
+//@ ensures place: dynplace(hp)
 
 // ---------------------------------------------------------------------------
 // Reading and writing whole frames (frame.go, frameHeader.go). bufio and io are
@@ -888,6 +900,7 @@ package http2
 //@ |   capacity(strm.previousHeaderBytes), capacity(strm.path), capacity(strm.scheme), sc.dec.maxTableSize, sc.dec.dynamic, capacity(sc.dec.dynamic), family(HeaderField), anybytes()
 //@ ensures decok: hpackOK(sc.dec)
 //@ loop 0: invariant dec: hpackOK(sc.dec)
+//@ loop 0: invariant place: dynplace(sc.dec)
 //@ loop 0: invariant ptrs: hf != nil && strm != nil && sc != nil && fr != nil && req != nil && strm.ctx != nil
 //@ loop 0: invariant cnt: fieldsProcessed >= 0
 //@ loop 0: invariant lim: sc.maxHeaderList > 0 && old(strm.headerListSize) <= sc.maxHeaderList ==> strm.headerListSize <= sc.maxHeaderList
@@ -908,6 +921,8 @@ package http2
 //@ |   (r0 == nil || !(iserror(r0) && errframe(r0) == FrameGoAway)) ==> strm.headerListSize <= sc.maxHeaderList
 //@ # ---- a trailer block must end the stream (RFC 7540 8.1) ----
 //@ ensures trailers: old(strm.headersFinished) && !(hasflag(fr.flags, 1) && hasflag(fr.flags, 4)) ==> r0 != nil
+//@ # the table's backing array is the one it had or a new one: tables never come to share storage
+//@ ensures place: dynplace(sc.dec)
 
 //@ func (*serverConn).handleFrame
 //@ props C08 C06 C14 C13 C09 C17 C20 C01
@@ -938,6 +953,7 @@ package http2
 //@ # ---- DATA (RFC 7540 6.1) ----
 //@ ensures dataearly: k == 0 && s0 == 2 && !old(strm.headersFinished) ==> r0 != nil && iserror(r0) && errcode(r0) == ProtocolError
 //@ ensures databody: k == 0 && s0 == 2 && old(strm.headersFinished) ==> strm.recvBody == old(strm.recvBody) + len(as(fr.fr, *Data).b)
+//@ ensures recvnn: strm.recvBody >= old(strm.recvBody)
 //@ # every DATA frame that reaches the body accounting is credited back, accepted or not (C14, C09)
 //@ ensures datacredit: k == 0 && s0 == 2 && old(strm.headersFinished) ==> called((*serverConn).consumeRecvWindow) == 1
 //@ # a body above MaxRequestBodySize is refused with a stream error and never stored (C13)
@@ -951,6 +967,8 @@ package http2
 //@ ensures priook: k == 2 && (s0 == 0 || old(strm.headersFinished)) && as(fr.fr, *Priority).stream != strm.id ==> r0 == nil
 //@ # invariants handed back to the loop
 //@ ensures winv: sc.currentWindow >= sc.maxWindow / 2 && sc.currentWindow <= sc.maxWindow && hpackOK(sc.dec)
+//@ # the table's backing array is the one it had or a new one: tables never come to share storage
+//@ ensures place: dynplace(sc.dec)
 
 // ---- sending the response body within the peer's windows (RFC 7540 6.9) ----
 
@@ -1087,6 +1105,8 @@ package http2
 //@ ensures recorded: sc.clientS.frameSize == old(st.frameSize) && sc.clientS.maxStreams == old(st.maxStreams) && sc.clientS.windowSize == old(st.windowSize) && sc.clientS.tableSize == old(st.tableSize)
 //@ ensures table: sc.enc.maxTableSize == old(st.tableSize) && sc.enc.maxTableSizeSettings == old(st.tableSize)
 //@ ensures ack: called((*serverConn).write) == 1
+//@ # the table's backing array is the one it had or a new one: tables never come to share storage
+//@ ensures place: dynplace(sc.enc)
 
 //@ func NewStream
 //@ props C13 C08
@@ -1146,6 +1166,8 @@ package http2
 //@ ensures tblok: hpackOK(hp)
 //@ ensures empty: len(b) == 0 ==> r1 == nil && len(r0) == 0
 //@ ensures progress: r1 == nil && len(b) > 0 ==> len(r0) < len(b)
+//@ # the table's backing array is the one it had or a new one: tables never come to share storage
+//@ ensures place: dynplace(hp)
 
 //@ func (*Conn).readHeader
 //@ props C20 C02 C16
@@ -1274,6 +1296,8 @@ package http2
 //@ opt noframe=true
 //@ modifies dst.rawHeaders, capacity(dst.rawHeaders), hp.pendingSizeUpdate, hp.dynamic, capacity(hp.dynamic), family(HeaderField), anybytes()
 //@ ensures tbl: hpackOK(hp)
+//@ # the table's backing array is the one it had or a new one: tables never come to share storage
+//@ ensures place: dynplace(hp)
 
 //@ func (*serverConn).finishRequest
 //@ props C01 C06
@@ -1289,6 +1313,8 @@ package http2
 //@ ensures windows: strm.window <= old(strm.window) && sc.clientWindow <= old(sc.clientWindow) &&
 //@ |   strm.window >= min(old(strm.window), 0) && sc.clientWindow >= min(old(sc.clientWindow), 0)
 //@ ensures done: r0 ==> strm.bodyStream == nil
+//@ # the table's backing array is the one it had or a new one: tables never come to share storage
+//@ ensures place: dynplace(sc.enc)
 
 //@ func (*serverConn).createStream
 //@ props C13 C17
@@ -1329,9 +1355,90 @@ package http2
 //@ ensures removed: len(old(*strms)) > 0 && old(*strms)[0].id == id ==> len(*strms) == len(old(*strms)) - 1
 //@ ensures subset: forall(i, 0, len(*strms), exists(j, 0, len(old(*strms)), (*strms)[i] == old(*strms)[j]))
 //@ ensures nonnil: forall(i, 0, len(*strms), (*strms)[i] != nil)
+//@ # the table is compacted in place
+//@ ensures inplace: samearray(*strms, old(*strms))
+//@ # with one entry per identifier, the identifier is gone from the table afterwards
+//@ ensures gone: (forall(i, 0, len(old(*strms)), forall(j, 0, i, old(*strms)[i].id != old(*strms)[j].id))) ==> forall(i, 0, len(*strms), (*strms)[i].id != id)
+//@ ensures uniq: (forall(i, 0, len(old(*strms)), forall(j, 0, i, old(*strms)[i].id != old(*strms)[j].id))) ==>
+//@ |   forall(i, 0, len(*strms), forall(j, 0, i, (*strms)[i].id != (*strms)[j].id))
 
 //@ macro scInv(sc) = scOK(sc) && hpackOK(sc.dec) && hpackOK(sc.enc) && sc.maxWindow >= 0 && sc.currentWindow >= sc.maxWindow / 2 &&
-//@ |   sc.currentWindow <= sc.maxWindow && sc.clientWindow <= 2147483647 && sc.maxRequestTimer != nil
+//@ |   sc.currentWindow <= sc.maxWindow && sc.clientWindow <= 2147483647 && sc.maxRequestTimer != nil && tblsSep(sc)
+//@ # the encoder's and the decoder's dynamic tables do not share storage
+//@ macro tblsSep(sc) = cap(sc.enc.dynamic) == 0 || cap(sc.dec.dynamic) == 0 || !samearray(sc.enc.dynamic, sc.dec.dynamic)
+
+//@ # ---- the stream table ----
+//@ # every stream in the table is usable: it has its request context, it has not been handed back to the pools
+//@ # (abandoned streams are out of the table), and a handler runs only for a stream whose request was dispatched
+//@ macro tblOK(t) = forall(i, 0, len(t), t[i] != nil && t[i].ctx != nil && t[i].recvBody >= 0 && !t[i].abandoned && (t[i].handlerRunning ==> t[i].responded))
+//@ # one entry per stream identifier (Search and Del go by identifier and stop at the first match)
+//@ macro tblUniq(t) = forall(i, 0, len(t), forall(j, 0, i, t[i].id != t[j].id))
+//@ # the ring of recently closed stream ids
+//@ # every stream in the table was opened, so its identifier is not above the highest one seen on HEADERS
+//@ macro tblIds(t, last) = forall(i, 0, len(t), t[i].id <= last)
+//@ macro ringOK(ring, oldest) = oldest >= 0 && oldest < 256 && len(ring) <= 256
+
+//@ func (*serverConn).handleStreams.markClosed
+//@ inline
+
+//@ func (*serverConn).handleStreams.releaseStream
+//@ inline
+
+//@ func (*serverConn).handleStreams.closeStream
+//@ inline
 
 //@ func (*serverConn).flushStreams
 //@ inline
+//@ loop 0: invariant conn: scInv(sc)
+//@ # the table handed in is only read here; the streams that finished are collected in a list of their own
+//@ loop 0: invariant keep: forall(i, 0, len(strms), strms[i] == entry(strms[i]))
+//@ loop 0: invariant sep: cap(done) == 0 || !samearray(done, strms)
+//@ loop 0: invariant done: forall(k, 0, len(done), done[k] != nil)
+//@ loop 1: invariant conn: scInv(sc)
+//@ loop 1: invariant sep: len(done) == 0 || !samearray(done, outer(strms))
+//@ loop 1: invariant done: forall(k, 0, len(done), done[k] != nil)
+//@ loop 1: invariant tbl: tblOK(outer(strms))
+//@ loop 1: invariant uniq: tblUniq(outer(strms))
+//@ loop 1: invariant ids: tblIds(outer(strms), sc.lastID)
+//@ loop 1: invariant ring: ringOK(outer(closedRing), outer(closedOldest))
+
+//@ func (*serverConn).handleStreams
+//@ props WIP
+//@ requires conn: scInv(sc)
+//@ opt noframe=true
+//@ # ASSUMPTION: int64 window counters and the int stream counter do not overflow
+//@ opt noovf=true
+//@ modifies *sc, anybytes(), family(Stream), family(HeaderField), family(FrameHeader),
+//@ |   family(Data), family(Headers), family(Priority), family(RstStream), family(Settings), family(PushPromise), family(Ping), family(GoAway), family(WindowUpdate), family(Continuation)
+//@ # ---- main loop ----
+//@ loop 0: invariant ok: scOK(sc) && sc.maxRequestTimer != nil
+//@ loop 0: invariant dec: hpackOK(sc.dec)
+//@ loop 0: invariant enc: hpackOK(sc.enc)
+//@ loop 0: invariant rwin: sc.maxWindow >= 0 && sc.currentWindow >= sc.maxWindow / 2 && sc.currentWindow <= sc.maxWindow
+//@ loop 0: invariant swin: sc.clientWindow <= 2147483647
+//@ loop 0: invariant sep: tblsSep(sc)
+//@ loop 0: invariant table: tblOK(strms)
+//@ loop 0: invariant uniq: tblUniq(strms)
+//@ loop 0: invariant ids: tblIds(strms, sc.lastID)
+//@ # the frame handled in the last iteration is released at the top of the next one
+//@ loop 0: invariant handled: handled == nil || handled.fr != nil
+//@ loop 0: invariant ring: ringOK(closedRing, closedOldest)
+//@ # ---- request timeout: the streams that are due are the first deleteUntil entries ----
+//@ loop 1: invariant cnt: deleteUntil >= 0 && deleteUntil <= rangeindex + 1
+//@ loop 2: invariant conn: scInv(sc)
+//@ loop 2: invariant table: tblOK(strms)
+//@ loop 2: invariant uniq: tblUniq(strms)
+//@ loop 2: invariant ids: tblIds(strms, sc.lastID)
+//@ loop 2: invariant ring: ringOK(closedRing, closedOldest)
+//@ loop 2: invariant cnt: deleteUntil <= len(strms)
+//@ # ---- SETTINGS_INITIAL_WINDOW_SIZE: the delta reaches every stream in the table (RFC 7540 6.9.2) ----
+//@ loop 3: invariant conn: scInv(sc)
+//@ loop 3: invariant table: tblOK(strms)
+//@ loop 3: invariant uniq: tblUniq(strms)
+//@ # ---- a new HEADERS stream closes lower idle streams ----
+//@ loop 4: invariant conn: scInv(sc)
+//@ loop 4: invariant table: tblOK(strms)
+//@ loop 4: invariant uniq: tblUniq(strms)
+//@ loop 4: invariant ids: tblIds(strms, sc.lastID)
+//@ loop 4: invariant ring: ringOK(closedRing, closedOldest)
+//@ loop 4: invariant cur: strm != nil && strm.ctx != nil && strm.recvBody >= 0 && !strm.abandoned && (strm.handlerRunning ==> strm.responded)
